@@ -290,7 +290,9 @@ Apply(f, args, REG) ==
                    IN VOkAmb(JArr([i \in DOMAIN srt |-> srt[i].val]), ks.amb)
     [] f = "sum"   -> VOk(SumNums(x.a))
     [] f = "to_array" -> VOk(IF x.t = "arr" THEN x ELSE JArr(<<x>>))
-    [] f = "to_number" -> VOk(IF x.t = "num" THEN x ELSE IF x.t = "str" THEN ToNumberOfString(x.s).v ELSE JNull)
+    [] f = "to_number" -> IF x.t = "num" THEN VOk(x)
+                          ELSE IF x.t = "str" THEN LET tn == ToNumberOfString(x.s) IN VOkAmb(tn.v, tn.open \/ ~tn.dom)
+                          ELSE VOk(JNull)
     [] f = "to_string" -> IF x.t = "str" THEN VOk(x)
                           ELSE IF HasNumber(x) THEN VOkAmb(JStr(<<>>), TRUE)   \* "1" and "1.0" both encode the number 1
                           ELSE VOk(JStr(JsonText(x)))
